@@ -533,4 +533,180 @@ theorem Same.eventMatchingScore (f : FUid) (sp : Spec) (e : Event) : Pres Same (
 theorem Same.nameFor (f : FUid) (p : Nat) (h : HeadStatus) : Pres Same (nameFor f p h) := by unfold CoreVM.nameFor; same_auto
 macro_rules | `(tactic| same_leaf) => `(tactic| first | exact Same.eventMatchingScore _ _ _ | exact Same.nameFor _ _ _)
 
+/-! ### Layer C: post-condition of `_abort_flow` -/
+
+/-- the index component (instances, statuses, heads, dispatch maps) is not touched -/
+def IxSame (s s' : VM) : Prop := s'.ixs = s.ixs
+theorem ixSamePO : PreOrd IxSame := ⟨fun _ => rfl, fun h1 h2 => by unfold IxSame at *; rw [h2, h1]⟩
+
+theorem IxSame.modifyRest (g : Rest → Rest) : Pres IxSame (CoreVM.modifyRest g) := ⟨fun s => rfl⟩
+theorem IxSame.of_same {α : Type} {x : M α} (h : Pres Same x) : Pres IxSame x :=
+  Pres.of_same (fun s n => rfl) h
+theorem IxSame.modInstX (f : FUid) (g) : Pres IxSame (modInstX f g) := IxSame.modifyRest _
+theorem IxSame.pushEvent (e) : Pres IxSame (pushEvent e) := IxSame.modifyRest _
+theorem IxSame.pushLeftEvent (e) : Pres IxSame (pushLeftEvent e) := IxSame.modifyRest _
+
+syntax "ixsame_leaf" : tactic
+macro_rules | `(tactic| ixsame_leaf) => `(tactic| first
+  | exact IxSame.modInstX _ _ | exact IxSame.pushEvent _ | exact IxSame.pushLeftEvent _ | exact IxSame.modifyRest _
+  | (apply IxSame.of_same; same_leaf))
+
+theorem IxSame.failedEvent (f sc) : Pres IxSame (failedEvent f sc) := by
+  unfold CoreVM.failedEvent; pres_search IxSame ixSamePO (ixsame_leaf)
+theorem IxSame.restartActivated (f sc d) : Pres IxSame (restartActivated f sc d) := by
+  unfold CoreVM.restartActivated; pres_search IxSame ixSamePO (ixsame_leaf)
+
+
+theorem ok_of_pres {R : VM → VM → Prop} {α : Type} {x : M α} (h : Pres R x) {s s' : VM} {a : α} (hr : x s = .ok a s') :
+    R s s' := by
+  have := h.app s; rw [hr] at this; exact this
+
+theorem err_of_pres {R : VM → VM → Prop} {α : Type} {x : M α} (h : Pres R x) {s s' : VM} {e : VMErr} (hr : x s = .error e s') :
+    R s s' := by
+  have := h.app s; rw [hr] at this; exact this
+
+theorem Same.isReferenceActivated (f : FUid) : Pres Same (isReferenceActivated f) := by
+  unfold CoreVM.isReferenceActivated; same_auto
+theorem Same.isChildActivated (f : FUid) : Pres Same (isChildActivated f) := by
+  unfold CoreVM.isChildActivated; same_auto
+
+/-! #### "ends in `Q`": a calculus for facts established by the LAST statements of a computation -/
+
+/-- every normal return of `x` ends in a state satisfying `Q` -/
+structure Post (Q : VM → Prop) {α : Type} (x : M α) : Prop where
+  app : ∀ s a s', x s = .ok a s' → Q s'
+
+theorem Post.bind_right {Q : VM → Prop} {α β : Type} {x : M α} {f : α → M β} (hf : ∀ a, Post Q (f a)) : Post Q (x >>= f) :=
+  ⟨fun s b s' h => by obtain ⟨a, s1, _, h2⟩ := bind_ok h; exact (hf a).app s1 b s' h2⟩
+theorem Post.throw {Q : VM → Prop} {α : Type} (e : VMErr) : Post Q (throw e : M α) := ⟨fun s a s' h => by cases h⟩
+theorem Post.pyRaise {Q : VM → Prop} {α : Type} (c m : String) : Post Q (pyRaise c m : M α) := ⟨fun s a s' h => by cases h⟩
+theorem Post.unsupported {Q : VM → Prop} {α : Type} (w : String) : Post Q (unsupported w : M α) := ⟨fun s a s' h => by cases h⟩
+
+structure PJ1 (Q : VM → Prop) {A α : Type} (x : A → M α) : Prop where
+  app : ∀ a, Post Q (x a)
+structure PJ2 (Q : VM → Prop) {A B α : Type} (x : A → B → M α) : Prop where
+  app : ∀ a b, Post Q (x a b)
+
+syntax "post_search " term:max tactic:max : tactic
+syntax "post_let " term:max tactic:max : tactic
+macro_rules
+  | `(tactic| post_let $Q $leaf) => `(tactic| (
+      extract_lets +onlyGivenNames x
+      first
+        | (have hx : PJ1 $Q x := ⟨by (intro a; dsimp only [x]; clear x; post_search $Q $leaf)⟩
+           clear_value x)
+        | (have hx : PJ2 $Q x := ⟨by (intro a b; dsimp only [x]; clear x; post_search $Q $leaf)⟩
+           clear_value x)
+        | clear_value x))
+macro_rules
+  | `(tactic| post_search $Q $leaf) => `(tactic| repeat' (first
+      | with_reducible ($leaf:tactic)
+      | with_reducible exact Post.throw _
+      | with_reducible exact Post.pyRaise _ _
+      | with_reducible exact Post.unsupported _
+      | with_reducible apply Post.bind_right
+      | intro _
+      | post_let $Q $leaf
+      | with_reducible (refine PJ1.app ?_ _; assumption)
+      | with_reducible (refine PJ2.app ?_ _ _; assumption)
+      | split
+      | dsimp only))
+
+/-- what the end of `_abort_flow` establishes -/
+def Aborted (f : FUid) (sc : List Score) (s' : VM) : Prop :=
+  (∃ i', findInst s'.ixs.ix f = some i' ∧ i'.status = .stopped ∧ i'.heads = []) ∧
+  ∃ e, e ∈ s'.r.queue ∧ e.ev.name = "FlowFailed" ∧ e.ev.kind = .internal ∧ e.scores = sc
+
+theorem abortEnd_post (f : FUid) (sc : List Score) (d : Bool) :
+    Post (fun s' => (findInst s'.ixs.ix f).isSome → Aborted f sc s') (do
+      setFlowStatus f FlowStatus.stopped
+      let e ← failedEvent f sc
+      pushEvent e
+      restartActivated f sc d) := by
+  refine ⟨fun s a s' h => ?_⟩
+  obtain ⟨_, s1, h1, h⟩ := bind_ok h
+  obtain ⟨e, s2, h2, h⟩ := bind_ok h
+  obtain ⟨_, s3, h3, h⟩ := bind_ok h
+  intro hex
+  -- `flow_state.status = STOPPED`
+  unfold CoreVM.setFlowStatus at h1
+  obtain ⟨_, sa, ha, h1⟩ := bind_ok h1
+  have e1 : s1.ixs = sa.ixs := by
+    have hp : Pres IxSame (do
+        let now := (← getRest).clock
+        modInstX f fun x => { x with statusUpdated := now }) := by
+      pres_search IxSame ixSamePO (ixsame_leaf)
+    exact ok_of_pres hp h1
+  have e2 : s2.ixs = s1.ixs := ok_of_pres (IxSame.failedEvent f sc) h2
+  have e3 : s3.ixs = s2.ixs := ok_of_pres (IxSame.pushEvent e) h3
+  have e4 : s'.ixs = s3.ixs := ok_of_pres (IxSame.restartActivated f sc d) h
+  have hfa : ∀ i, findInst s.ixs.ix f = some i → findInst sa.ixs.ix f = some { i with status := .stopped } := by
+    intro i hi
+    unfold CoreVM.applyOp at ha
+    split at ha
+    · cases ha
+      simp only [IxS.apply, step]
+      rw [findInst_modifyInst _ _ _ _ (by intro i; rfl)]
+      simp [hi]
+    · cases ha
+  have hex' : (findInst s.ixs.ix f).isSome := by
+    -- instances are never created here: if `f` exists at the end it existed at the start
+    cases hf : findInst s.ixs.ix f with
+    | some i => rfl
+    | none =>
+      exfalso
+      rw [e4, e3, e2, e1] at hex
+      unfold CoreVM.applyOp at ha
+      split at ha
+      · cases ha
+        simp only [IxS.apply, step] at hex
+        rw [findInst_modifyInst _ _ _ _ (by intro i; rfl)] at hex
+        simp [hf] at hex
+      · cases ha
+  obtain ⟨i, hi⟩ := Option.isSome_iff_exists.mp hex'
+  have hfin : findInst s'.ixs.ix f = some { i with status := .stopped } := by
+    rw [e4, e3, e2, e1]; exact hfa i hi
+  refine ⟨⟨_, hfin, rfl, ?_⟩, ?_⟩
+  · exact noPos_of_vm s' f _ hfin rfl
+  · -- the event
+    have hq3 : s3.r.queue = s2.r.queue ++ [e] := by
+      unfold CoreVM.pushEvent CoreVM.modifyRest at h3
+      simp only [modify, modifyGet, MonadStateOf.modifyGet, EStateM.modifyGet] at h3
+      cases h3; rfl
+    obtain ⟨pre, post, hq⟩ := (ok_of_pres (Ext.restartActivated f sc d) h).queue
+    unfold CoreVM.failedEvent at h2
+    obtain ⟨o, s2', _, h2⟩ := bind_ok h2
+    simp only [pure, EStateM.pure] at h2
+    refine ⟨e, ?_, ?_, ?_, ?_⟩
+    · rw [hq, hq3]; simp
+    all_goals (cases h2; rfl)
+
+
+/-- **post-condition of `_abort_flow(deactivate_flow=False)`**: called on an instance that is listening (WAITING / STARTING /
+    STARTED) or STOPPING, every normal return leaves the instance STOPPED (= FAILED) without heads and a `FlowFailed` internal
+    event with the given matching scores in the queue -/
+theorem abortFlow_aborts (fuel : Nat) (f : FUid) (sc : List Score) (s s' : VM) (i : Inst)
+    (hi : findInst s.ixs.ix f = some i) (hl : i.status.listening = true ∨ i.status = .stopping)
+    (h : abortFlow (fuel + 1) f sc false s = .ok () s') : Aborted f sc s' := by
+  have hex : (findInst s'.ixs.ix f).isSome := (ok_of_pres (Ext.abortFlow (fuel + 1) f sc false) h).insts f (by rw [hi]; rfl)
+  unfold abortFlow at h
+  obtain ⟨b, s0, h0, hA⟩ := bind_ok h
+  clear h
+  have e0 : s0.ixs = s.ixs := ok_of_pres (IxSame.of_same (Same.isReferenceActivated f)) h0
+  simp only [Bool.false_and, Bool.false_eq_true, if_false] at hA
+  obtain ⟨i0, s0', h1, hB⟩ := bind_ok hA
+  clear hA
+  have hi0 : i0 = i ∧ s0' = s0 := by
+    unfold getInst getInst? getIx at h1
+    simp only [bind, EStateM.bind, get, getThe, MonadStateOf.get, EStateM.get, pure, EStateM.pure, e0, hi] at h1
+    cases h1; exact ⟨rfl, rfl⟩
+  obtain ⟨rfl, rfl⟩ := hi0
+  split at hB
+  · rename_i hc
+    exfalso
+    rcases hl with hl | hl <;> simp [hl] at hc
+  rename_i hc
+  refine (Post.app (Q := fun s' => (findInst s'.ixs.ix f).isSome → Aborted f sc s') ?_ _ _ _ hB) hex
+  post_search (fun s' => (findInst s'.ixs.ix f).isSome → Aborted f sc s') (exact abortEnd_post f sc false)
+
 end NemoVerif.CoreVM
